@@ -21,3 +21,36 @@ Theorem C16_iso_minor_diameter :
   (forall d_maj pitch : R, d_min_from_d_maj_pitch d_maj pitch = (d_maj - 2 * (5 / 8) * (sqrt 3 / 2) * pitch)%R) /\
   (forall ext int pitch : R, (ext < int)%R -> (d_min_from_d_maj_pitch ext pitch < d_min_from_d_maj_pitch int pitch)%R).
 Proof. exact (conj d_min_formula minor_clearance). Qed.
+
+(* ---- the thread mesh ---- *)
+From SCAD Require Import Base.Vec Parts.Thread_mesh_proofs.
+(* every vertex of the thread mesh, for all dimensions 0 <= d_min <= d_maj, pitch >= 0, segments >= 0, lead-in/out angles
+   >= 0, both hands, any number of steps: distance from the axis between d_min/2 and d_maj/2, and z >= 0 *)
+Theorem C16_thread_vertices : forall (d_min d_maj pitch length : R) (segments : Z) (li lo : R) (left : bool),
+  (0 <= d_min <= d_maj)%R -> (0 <= pitch)%R -> (0 <= segments)%Z -> (0 <= li)%R -> (0 <= lo)%R ->
+  (0 <= z_step pitch length segments)%R ->
+  Forall (vok d_min d_maj) (fst (thread_mesh d_min d_maj pitch length segments li lo left)).
+Proof. exact thread_vertices. Qed.
+Theorem C16_z_step_nonneg : forall (pitch length : R) (segments : Z),
+  (0 <= pitch)%R -> (7 / 10 * pitch <= length)%R -> (0 <= segments)%Z -> (0 <= z_step pitch length segments)%R.
+Proof. exact z_step_nonneg. Qed.
+(* one pitch per revolution, within the rounding of the step count *)
+Theorem C16_pitch_per_revolution : forall (pitch length : R) (segments : Z),
+  (0 < pitch)%R -> (7 / 10 * pitch <= length)%R -> (0 <= segments)%Z -> (1 <= n_steps pitch length segments)%Z ->
+  (pitch <= z_step pitch length segments * IZR segments < pitch * (1 + / IZR (n_steps pitch length segments)))%R.
+Proof. exact pitch_per_revolution. Qed.
+(* hence for every size m (listed, unlisted, below 2, above 100): the rod / bolt thread (external diameter) and the
+   tap / nut thread (internal diameter) keep every vertex between the ISO minor radius and the table's major radius *)
+Theorem C16_threads_of_every_size : forall (m : Z) (length : R) (segments : Z) (li lo : R) (left : bool),
+  (0 <= segments)%Z -> (0 <= li)%R -> (0 <= lo)%R ->
+  exists r, m_table_lookup m = Some r /\
+    ((7 / 10 * r_pitch r <= length)%R ->
+     Forall (vok (d_min_from_d_maj_pitch (r_ext r) (r_pitch r)) (r_ext r))
+            (fst (thread_mesh (d_min_from_d_maj_pitch (r_ext r) (r_pitch r)) (r_ext r) (r_pitch r) length segments li lo left)) /\
+     Forall (vok (d_min_from_d_maj_pitch (r_int r) (r_pitch r)) (r_int r))
+            (fst (thread_mesh (d_min_from_d_maj_pitch (r_int r) (r_pitch r)) (r_int r) (r_pitch r) length segments li lo left))).
+Proof.
+  intros m length segments li lo left Hs Hli Hlo. destruct (lookup_total_and_largest_below m) as (r & Hr & Hin & _).
+  exists r. split; [exact Hr|]. intros Hlen. destruct (row_minor_nonneg r Hin) as (He & Hi & Hp).
+  split; apply thread_vertices; try assumption; apply z_step_nonneg; assumption.
+Qed.
